@@ -109,9 +109,47 @@ def tiling_site(repo, col, ms, qn, expect_axes=3, require_count=True,
     found_axes = 0
     for i, extent in sorted(idx.items()):
         count = None
+        opaque_extent = False
         if extent is not None:
+            # `n = num_chunks(size, chunk)`: a straight-line local helper is
+            # replaced by the expression it returns
+            from .dataflow import expand, inline_helper_call
+            from .core import resolve_local_call
+            ext = extent
+
+            def has_helper_call(x):
+                return any(isinstance(cc, ast.Call) and
+                           resolve_local_call(fn, cc) not in (None, fn)
+                           for cc in ast.walk(x))
+            for _ in range(3):
+                if isinstance(ext, ast.Name) and ext.id in subst_table and \
+                        has_helper_call(subst_table[ext.id]):
+                    import copy as _cp
+                    ext = _cp.deepcopy(subst_table[ext.id])
+            for _ in range(2):
+                repl = {}
+                for cc in ast.walk(ext):
+                    if isinstance(cc, ast.Call):
+                        h = resolve_local_call(fn, cc)
+                        if h is not None and h is not fn:
+                            e2 = inline_helper_call(cc, h.node, drop_self=True)
+                            if e2 is not None:
+                                repl[id(cc)] = e2
+                            else:
+                                opaque_extent = True
+                if not repl:
+                    break
+
+                class _R(ast.NodeTransformer):
+                    def visit_Call(self, node):
+                        if id(node) in repl:
+                            return repl[id(node)]
+                        return self.generic_visit(node)
+                import copy as _copy
+                # ids change under deepcopy: transform in place on a wrapper
+                ext = _R().visit(ext)
             try:
-                c = canon(extent, dict(subst_table, **aliases))
+                c = canon(ext, dict(subst_table, **aliases))
             except NotInt:
                 c = None
             m = CEIL_RE.match(c) if c else None
@@ -164,11 +202,14 @@ def tiling_site(repo, col, ms, qn, expect_axes=3, require_count=True,
         found_axes += 1
         if extent is not None and require_count:
             col.add(rule + ".count", fn, "%s in range(%s)" % (i, norm(extent)[:60]),
-                    count is not None,
+                    count is not None or opaque_extent,
                     "chunk count = ceil(size / chunk size)" if count else
-                    "loop extent `%s` is not ceil(size / chunk size): chunks "
-                    "are skipped or produced beyond the volume"
-                    % norm(extent), node=extent)
+                    ("loop extent `%s` is computed by a helper this rule does "
+                     "not interpret" % norm(extent) if opaque_extent else
+                     "loop extent `%s` is not ceil(size / chunk size): chunks "
+                     "are skipped or produced beyond the volume"
+                     % norm(extent)), node=extent,
+                    undecided=count is None and opaque_extent)
         col.add(rule + ".lo", fn, "%s: lower = C*%s" % (i, i), bool(los),
                 "" if los else "no expression C*%s found for the lower chunk "
                 "bound" % i, undecided=not los and not his)
